@@ -101,6 +101,9 @@ type C15Req struct {
 	Upd  int    `json:"upd"`           // scripted updates: index into Updates, -1 = nil
 	Fail bool   `json:"fail"`          // the handler fails ...
 	Err  string `json:"err,omitempty"` // ... with this text
+	// DelayMs: the handler takes this long to answer (always well within the request timeout the
+	// runtime end announced in this session's Configure request: 2*DelayMs <= ReqTimeoutMs).
+	DelayMs int `json:"delay_ms,omitempty"`
 	// Rel relates parts of the message to each other (applied after the parts are resolved):
 	//   "res=ctr"      the container carries, as its own Linux.Resources, a deep copy of the request's resources
 	//   "res=ctr-same" ... the very same object
@@ -129,6 +132,9 @@ type C15Session struct {
 	Config  string `json:"config,omitempty"`
 	Runtime string `json:"runtime,omitempty"`
 	Version string `json:"version,omitempty"`
+	// ReqTimeoutMs is the plugin request timeout the runtime end announces in the Configure
+	// request (milliseconds; 0 = it announces none). The runtime end itself waits much longer.
+	ReqTimeoutMs int64 `json:"req_timeout_ms"`
 	// The Synchronize request after Configure, sent as len(SyncChunks) messages (none when
 	// empty). All but the last carry More=true; the last one too unless SyncFinal - then the
 	// runtime goes away in the middle of the synchronization: no requests, the session ends.
@@ -449,6 +455,8 @@ func genSession(t *rapid.T, ent typeEntry, c *C15Case, nsess int) C15Session {
 		Version: rapid.OneOf(rapid.StringMatching(`v?[0-9]\.[0-9]{1,2}(\.[0-9])?`), rapid.Just("")).Draw(t, "version"),
 		SyncUpd: -1,
 		End:     rapid.SampledFrom([]string{"close", "stop"}).Draw(t, "end"),
+		// the request timeout the runtime end announces: none, a very short one, usual ones
+		ReqTimeoutMs: rapid.SampledFrom([]int64{0, 40, 500, 2000, 2000, 2000, 6000, 6000}).Draw(t, "reqtimeout"),
 	}
 	if ent.HasConfigure {
 		mode := rapid.SampledFrom([]string{"zero", "zero", "subset", "subset", "subset", "impl", "extra", "extra", "raw", "error", "wide", "wide", "wide"}).Draw(t, "cfgmode")
@@ -639,6 +647,21 @@ func genSession(t *rapid.T, ent typeEntry, c *C15Case, nsess int) C15Session {
 		case rel == 16:
 			r.Rel = rapid.SampledFrom([]string{"res=ctr", "res=ctr-same", "ovh=res", "ovh=res=pod"}).Draw(t, "anyrel")
 		}
+		// handler duration: under a generous announced timeout (>= 2 s) a handler may take a few
+		// milliseconds, and - when the previous session of this stub announced a very short
+		// timeout - longer than that earlier timeout (still a small fraction of the current one)
+		if s.ReqTimeoutMs >= 2000 {
+			prev := int64(0)
+			if n := len(c.Sessions); n > 0 {
+				prev = c.Sessions[n-1].ReqTimeoutMs
+			}
+			switch d := rapid.IntRange(0, 39).Draw(t, "delay"); {
+			case prev > 0 && prev <= 100 && d < 10:
+				r.DelayMs = int(prev)*2 + rapid.IntRange(20, 80).Draw(t, "delayms")
+			case d == 39:
+				r.DelayMs = rapid.IntRange(1, 15).Draw(t, "smalldelayms")
+			}
+		}
 		s.Reqs = append(s.Reqs, r)
 		// the same request once more, verbatim; or one of an earlier session again
 		switch rapid.IntRange(0, 11).Draw(t, "repeat") {
@@ -650,7 +673,11 @@ func genSession(t *rapid.T, ent typeEntry, c *C15Case, nsess int) C15Session {
 		case 1:
 			if len(c.Sessions) > 0 && i+1 < nreq {
 				if prev := c.Sessions[rapid.IntRange(0, len(c.Sessions)-1).Draw(t, "repeatsession")].Reqs; len(prev) > 0 {
-					s.Reqs = append(s.Reqs, prev[rapid.IntRange(0, len(prev)-1).Draw(t, "repeatreq")])
+					again := prev[rapid.IntRange(0, len(prev)-1).Draw(t, "repeatreq")]
+					if int64(2*again.DelayMs) > s.ReqTimeoutMs {
+						again.DelayMs = 0
+					}
+					s.Reqs = append(s.Reqs, again)
 					i++
 				}
 			}
@@ -941,6 +968,14 @@ func validCase(c C15Case) string {
 		if s.End != "close" && s.End != "stop" {
 			return "unknown session end"
 		}
+		if s.ReqTimeoutMs < 0 {
+			return "negative request timeout"
+		}
+		for _, r := range s.Reqs {
+			if r.DelayMs < 0 || int64(2*r.DelayMs) > s.ReqTimeoutMs {
+				return "handler delay not within half of the announced request timeout"
+			}
+		}
 		if s.SyncUpd < -1 || s.SyncUpd >= len(c.Updates) {
 			return "sync update index out of range"
 		}
@@ -1066,6 +1101,7 @@ type caseRun struct {
 	hadSplit    bool // an earlier session left the stub after a split or unfinished synchronization (classes only)
 	hadUnfin    bool
 	earlierReqs map[string]bool // requests (as JSON) sent in earlier sessions (classes only)
+	lateDelay   bool            // a delayed handler's request came near the announced timeout: machine too slow to judge
 }
 
 func (cr *caseRun) note(f string, a ...any) { cr.hist = append(cr.hist, fmt.Sprintf(f, a...)) }
@@ -1120,6 +1156,9 @@ func runC15Once(c C15Case) (out ev.Outcome, overloaded bool) {
 		v, msg := cr.runSession(k, s)
 		// end the session the way the case says (a failed configuration has ended it already)
 		notified := s.end(c.Sessions[k].End == "stop" && v == vOK)
+		if v == vFail && cr.lateDelay {
+			v, msg = vSlow, "a request with a slow handler took nearly the announced timeout ("+msg+")"
+		}
 		switch v {
 		case vFail:
 			o := ev.Failf("type %s (implements %s), session %d of %d: %s", ent.Name, maskStr(ent.Mask), k+1, len(c.Sessions), msg)
@@ -1191,6 +1230,7 @@ func (cr *caseRun) runSession(k int, s *session) (verdict, string) {
 	impl := ent.Mask
 	cfgClass, wantMask := cfgExpect(ent, sc)
 	classes[cfgClass] = true
+	classes[fmt.Sprintf("timeout:%dms", sc.ReqTimeoutMs)] = true
 	if ent.HasConfigure && !sc.CfgFail {
 		switch asked := api.EventMask(sc.CfgMask); {
 		case asked == -1:
@@ -1231,7 +1271,7 @@ func (cr *caseRun) runSession(k int, s *session) (verdict, string) {
 	ctx, cancel := stepCtx()
 	rpl, cerr := s.plugin.Configure(ctx, &api.ConfigureRequest{
 		Config: sc.Config, RuntimeName: sc.Runtime, RuntimeVersion: sc.Version,
-		RegistrationTimeout: 5000, RequestTimeout: 2000,
+		RegistrationTimeout: 5000, RequestTimeout: sc.ReqTimeoutMs,
 	})
 	expired := slow(ctx, cerr)
 	cancel()
@@ -1509,8 +1549,9 @@ func (cr *caseRun) runSession(k int, s *session) (verdict, string) {
 			mkErr, carries = specOf(r.ErrForm).build(r.Err)
 			wireMsg = wireMessage(mkErr())
 		}
-		rec.script(scripted{Adjust: adj, Updates: upd, MkErr: mkErr})
+		rec.script(scripted{Adjust: adj, Updates: upd, MkErr: mkErr, Delay: time.Duration(r.DelayMs) * time.Millisecond})
 		before := len(rec.snapshot())
+		sent := time.Now()
 
 		var (
 			got, want, empty proto.Message
@@ -1549,6 +1590,23 @@ func (cr *caseRun) runSession(k int, s *session) (verdict, string) {
 		cancel()
 		if expired {
 			return vSlow, fmt.Sprintf("request #%d %s", i, evName(e))
+		}
+		if r.DelayMs > 0 && isImpl {
+			// The handler was scripted to stay within half of the announced timeout. If the
+			// machine was so slow that the request nevertheless came near it, a stub is entitled
+			// to give up on the handler: the case cannot be judged then.
+			if el := time.Since(sent); el > time.Duration(sc.ReqTimeoutMs)*time.Millisecond*8/10 {
+				cr.lateDelay = true
+			}
+			classes["delay:handler-takes-time"] = true
+			if k > 0 {
+				if p := c.Sessions[k-1].ReqTimeoutMs; p > 0 && int64(r.DelayMs) > p {
+					classes["delay:longer-than-previous-session-timeout"] = true
+				}
+			}
+			if r.DelayMs > 2000 {
+				classes["delay:longer-than-default-timeout"] = true
+			}
 		}
 		inv := rec.snapshot()[before:]
 		cr.note("%s #%d %s impl=%v scripted(fail=%v %q adj=%d upd=%d) -> invoked=%s err=%v", tag, i, evName(e), isImpl, r.Fail, r.Err, r.Adj, r.Upd, handlersOf(inv), rerr)
@@ -1883,7 +1941,7 @@ func TestExh_C15(t *testing.T) {
 		relReqs = append(relReqs, r, r) // and once more, verbatim
 	}
 	sess := func(mask api.EventMask, end string, reqs ...[]C15Req) C15Session {
-		s := C15Session{CfgMask: int32(mask), Config: "cfg", Runtime: "verif", Version: "1.0", End: end, SyncUpd: -1}
+		s := C15Session{CfgMask: int32(mask), Config: "cfg", Runtime: "verif", Version: "1.0", End: end, SyncUpd: -1, ReqTimeoutMs: 2000}
 		for _, rs := range reqs {
 			s.Reqs = append(s.Reqs, rs...)
 		}
@@ -1917,27 +1975,10 @@ func TestExh_C15(t *testing.T) {
 		return out
 	}
 	sessions, cases := 0, 0
-	runOne := func(c C15Case) {
-		raw := ev.Snapshot(c)
-		r.Journal(raw)
-		o := runC15(c)
-		r.ClearJournal()
-		// keep the sweep out of the generated cases' class histogram (the floors judge the generator)
-		cl := []string{"exhaustive-sweep"}
-		for _, k := range o.Classes {
-			cl = append(cl, "sweep:"+k)
-		}
-		o.Classes = cl
-		r.Record(raw, o)
-		cases++
-		sessions += len(c.Sessions)
-		if o.Fail != "" {
-			t.Fatalf("C15 (sweep): %s", o.Fail)
-		}
-		if o.Overloaded {
-			t.Logf("C15 (sweep): overloaded case")
-		}
-	}
+	// The sweep cases are collected first and then executed by a few workers side by side: every
+	// case owns its stub, its runtime peer and its log; the shared pool objects are only read.
+	var sweep []C15Case
+	runOne := func(c C15Case) { sweep = append(sweep, c) }
 	ch := func(pods []int, ctrs []int) C15Chunk { return C15Chunk{Pods: pods, Ctrs: ctrs} }
 	withSync := func(s C15Session, final bool, fail bool, chunks ...C15Chunk) C15Session {
 		s.SyncChunks, s.SyncFinal, s.SyncUpd = chunks, final, 0
@@ -1950,6 +1991,39 @@ func TestExh_C15(t *testing.T) {
 		return s
 	}
 	one := ch([]int{0, 1}, []int{1, 0})
+
+	// Slow handlers: the runtime end announces a request timeout of 6 s and a handler takes
+	// 2.3 s (longer than the stub's built-in default of 2 s), in the first session of a stub
+	// and in a later one after sessions that announced 40 ms and nothing. These cases run
+	// concurrently with the rest of the sweep (each owns its stub, peer and log).
+	type slowResult struct {
+		c C15Case
+		o ev.Outcome
+	}
+	slowC := make(chan slowResult, 16)
+	nslow := 0
+	fullC, fullCS := kindIdx["full"][0]+1, kindIdx["full"][0]+3
+	for i, e := range []api.Event{api.Event_CREATE_CONTAINER, api.Event_UPDATE_CONTAINER, api.Event_STOP_CONTAINER, api.Event_UPDATE_POD_SANDBOX,
+		api.Event_RUN_POD_SANDBOX, api.Event_POST_START_CONTAINER} {
+		doc := 0
+		if podEvent(e) {
+			doc = -1
+		}
+		slowOK := C15Req{Event: int32(e), Ctr: doc, Ovh: 0, Res: 1, Adj: 0, Upd: 0, DelayMs: 2300}
+		slowFail := C15Req{Event: int32(e), Ctr: doc, Ovh: 0, Res: 1, Adj: -1, Upd: -1, DelayMs: 2300, Fail: true, Err: "exh-slow-handler-failed"}
+		var c C15Case
+		if i%2 == 0 {
+			s1 := sess(0, "close", []C15Req{slowOK, slowFail})
+			s1.ReqTimeoutMs = 6000
+			c = mk(fullC, s1)
+		} else {
+			s1, s2, s3 := sess(0, "stop", okReqs), sess(0, "close", okReqs), sess(0, "stop", []C15Req{slowFail, slowOK})
+			s1.ReqTimeoutMs, s2.ReqTimeoutMs, s3.ReqTimeoutMs = 40, 0, 6000
+			c = mk(fullCS, s1, s2, s3)
+		}
+		nslow++
+		go func() { slowC <- slowResult{c, runC15(c)} }()
+	}
 	for ti, ent := range registry {
 		implEv, unimplEv := bitsOf(ent.Mask), bitsOf(validMask&^ent.Mask)
 		lo := evbit(implEv[0])
@@ -2021,8 +2095,68 @@ func TestExh_C15(t *testing.T) {
 			runOne(mk(ti, fail, sess(0, "stop", okReqs)))
 		}
 	}
+	var (
+		mu        sync.Mutex
+		next      int
+		firstFail string
+		wg        sync.WaitGroup
+	)
+	for w := 0; w < 4; w++ {
+		wg.Add(1)
+		go func() {
+			defer wg.Done()
+			for {
+				mu.Lock()
+				i := next
+				next++
+				stop := firstFail != ""
+				mu.Unlock()
+				if stop || i >= len(sweep) {
+					return
+				}
+				c := sweep[i]
+				raw := ev.Snapshot(c)
+				o := runC15(c)
+				// keep the sweep out of the generated cases' class histogram (the floors judge the generator)
+				cl := []string{"exhaustive-sweep"}
+				for _, k := range o.Classes {
+					cl = append(cl, "sweep:"+k)
+				}
+				o.Classes = cl
+				r.Record(raw, o)
+				mu.Lock()
+				cases++
+				sessions += len(c.Sessions)
+				if o.Fail != "" && firstFail == "" {
+					firstFail = o.Fail
+				}
+				mu.Unlock()
+			}
+		}()
+	}
+	wg.Wait()
+	if firstFail != "" {
+		t.Fatalf("C15 (sweep): %s", firstFail)
+	}
+	for i := 0; i < nslow; i++ {
+		sr := <-slowC
+		cl := []string{"exhaustive-sweep"}
+		for _, k := range sr.o.Classes {
+			cl = append(cl, "sweep:"+k)
+		}
+		sr.o.Classes = cl
+		r.Record(sr.c, sr.o)
+		cases++
+		sessions += len(sr.c.Sessions)
+		if sr.o.Fail != "" {
+			t.Fatalf("C15 (sweep, slow handlers): %s", sr.o.Fail)
+		}
+		if sr.o.Overloaded {
+			t.Logf("C15 (sweep, slow handlers): overloaded case")
+		}
+	}
 	r.SetExtra("exhaustive", map[string]any{
-		"subdomain": "every generated plugin type (512: 128 handler sets x with/without Configure x with/without Synchronize) x each of the 13 event kinds (succeeding and failing handler; documented message shape, container present/absent the other way round, pod/container/resources absent and present-but-empty; the failing handler's error in every form x sentinel / status code, round-robin over types and kinds; related message parts: update resources equal to the container's own, overhead equal to resources and to the pod's own, container id equal to pod id, every request repeated verbatim); for the types without Synchronize handler: Configure returning 0, the implemented mask, each single implemented event, implemented+each single unimplemented event, and, for every third handler set, about twenty masks using bits 13..31 (all ones, the sign bit, bits 13..30; alone and on top of handled / unhandled events); per type restart sequences on one stub (3 connections; with Configure: subset -> 0 -> complementary subset, complementary subset -> subset -> implemented mask, rejected -> error -> implemented mask); for the types with Synchronize handler one stub synchronized six times in a row: split -> one message -> cut short after 3 messages -> split with failing handler -> cut short after 1 message -> one message",
+		"subdomain": "every generated plugin type (512: 128 handler sets x with/without Configure x with/without Synchronize) x each of the 13 event kinds (succeeding and failing handler; documented message shape, container present/absent the other way round, pod/container/resources absent and present-but-empty; the failing handler's error in every form x sentinel / status code, round-robin over types and kinds; related message parts: update resources equal to the container's own, overhead equal to resources and to the pod's own, container id equal to pod id, every request repeated verbatim); six cases with a handler taking 2.3 s under an announced request timeout of 6 s (first session; third session after sessions announcing 40 ms and none); for the types without Synchronize handler: Configure returning 0, the implemented mask, each single implemented event, implemented+each single unimplemented event, and, for every third handler set, about twenty masks using bits 13..31 (all ones, the sign bit, bits 13..30; alone and on top of handled / unhandled events); per type restart sequences on one stub (3 connections; with Configure: subset -> 0 -> complementary subset, complementary subset -> subset -> implemented mask, rejected -> error -> implemented mask); for the types with Synchronize handler one stub synchronized six times in a row: split -> one message -> cut short after 3 messages -> split with failing handler -> cut short after 1 message -> one message",
 		"types":     len(registry),
 		"cases":     cases,
 		"sessions":  sessions,
